@@ -62,6 +62,11 @@ fn main() {
             std::io::stdin().read_to_string(&mut s).unwrap();
             std::process::exit(multibuild::ref_one(&s));
         }
+        "mb-run" => {
+            let mut s = String::new();
+            std::io::stdin().read_to_string(&mut s).unwrap();
+            std::process::exit(multibuild::mb_run(&s));
+        }
         "dump-programs" => {
             common::silence_panics();
             multibuild::dump_programs(args.get(2).and_then(|s| s.parse().ok()).unwrap_or(1), args.get(3).and_then(|s| s.parse().ok()).unwrap_or(50));
